@@ -713,7 +713,11 @@ Fixpoint capture (excl : list sx) (caps : cap_list) (x : sx) : M (sx * cap_list)
 (* body of defun / lambda / defmacro after an optional docstring *)
 Definition fn_body (rest : sx) : res sx :=
   match car_of rest with
-  | Ok (Str _) => cdr_of rest
+  | Ok (Str _) => match cdr_of rest with
+                  | Ok (Cons a d) => Ok (Cons a d)
+                  | Ok _ => Ok rest
+                  | e => e
+                  end
   | Ok _ => Ok rest
   | Err e => Err e | Panic n => Panic n | Fuel => Fuel
   end.
@@ -1228,12 +1232,9 @@ Definition apply_prim (p : prim) (args : sx) : M sx :=
         l <- ev lst ;;
         c <- lift (car_of l) ;;
         _ <- sym_set_scope var c ;;
-        catch (dolist_loop (S (List.length (items l))) var l body)
-              (fun r => _ <- sym_unset var ;;
-                        match r with
-                        | Ok _ => ev result
-                        | Err e => fail e | Panic n => panic n | Fuel => lift Fuel
-                        end)
+        catch (_ <- dolist_loop (S (List.length (items l))) var l body ;;
+               _ <- sym_set_unchecked var Nil ;; ev result)
+              (fun r => _ <- sym_unset var ;; lift r)
   | PDotimes =>
       spec <- lift (car_of args) ;; body <- lift (cdr_of args) ;;
       var <- lift (car_of spec) ;; r1 <- lift (cdr_of spec) ;;
@@ -1245,12 +1246,9 @@ Definition apply_prim (p : prim) (args : sx) : M sx :=
         cv <- ev cnt ;;
         n <- lift (as_int cv) ;;
         _ <- sym_set_scope var (Int 0) ;;
-        catch (rec (TDotimes var 0 n body))
-              (fun r => _ <- sym_unset var ;;
-                        match r with
-                        | Ok _ => ev result
-                        | Err e => fail e | Panic n => panic n | Fuel => lift Fuel
-                        end)
+        catch (_ <- rec (TDotimes var 0 n body) ;;
+               _ <- sym_set_unchecked var (Int n) ;; ev result)
+              (fun r => _ <- sym_unset var ;; lift r)
   | PList => vs <- eval_each (items args) ;; ret (of_list vs Nil)
   | PConsp => predicate args (fun v => ret (consp v))
   | PListp => predicate args (fun v => ret (listp v))
